@@ -6,7 +6,7 @@ from vf import refhash as RH
 ID = "C17"
 LEVEL = "exploration"
 ENGINE = "E0 pure"
-TECHNIQUE = "differential testing: Hypothesis-generated sequences of derivation calls (inputs from a small pool, so values repeat) compared with an independent hashlib/netstring reference; end-to-end chains"
+TECHNIQUE = "differential testing: Hypothesis-generated sequences of derivation calls (inputs from a small pool, so values repeat) compared with an independent hashlib/netstring reference; end-to-end chains through cap objects of every SSK/MDMF flavour and through mutable file/directory nodes"
 RULE = ("each case is a sequence of 1-25 derivation calls (function drawn from 24 derivations, arguments drawn from a pool of 4 values per type so that "
         "repeated and interleaved inputs occur) plus whole chains: key->SI, writekey->readkey->SI, writekey->write-enabler per server, lease secret->"
         "client->file->bucket renew/cancel, IV+readkey->datakey, dirnode rwcap salt/key, convergence key over chunked data, pubkey fingerprint, "
